@@ -494,6 +494,24 @@ func c12CInt(v int64) string  { return cZ(big.NewInt(v)) }
 
 func c12BuilderScript(c *ctx) {
 	b := txDataBuilder.NewBuilder()
+	b2 := txDataBuilder.NewBuilder() // the same script without interleaved reads: reading a builder must not change what it builds later
+	reads := 0
+	cur := b
+	act := func(f func()) {
+		cur = b
+		f()
+		cur = b2
+		f()
+		switch c.rng.Intn(4) { // interleaved read-only observations
+		case 0:
+			_ = b.ToString()
+			reads++
+		case 1:
+			_ = b.ToBytes()
+			_ = b.GetLast()
+			reads++
+		}
+	}
 	var ops []string
 	ints := []int64{0, 1, -1, 255, 256, -256, 65535, 1 << 31, -(1 << 31), 1<<63 - 1, -(1 << 63), 1000000007}
 	toks := []string{"", "TOK", "ALC-6258d2", "a@b", "\x00\xff"}
@@ -501,91 +519,95 @@ func c12BuilderScript(c *ctx) {
 	for i := 0; i < n; i++ {
 		switch c.rng.Intn(17) {
 		case 0:
-			b.Clear()
+			act(func() { cur.Clear() })
 			ops = append(ops, "OpClear")
 		case 1:
 			f := c12RandFunc(c)
-			b.Func(f)
+			act(func() { cur.Func(f) })
 			ops = append(ops, "OpFunc "+c12Bytes([]byte(f)))
 		case 2:
 			v := byte(c.rng.Intn(256))
-			b.Byte(v)
+			act(func() { cur.Byte(v) })
 			ops = append(ops, "OpByte "+c12CByte(v))
 		case 3:
 			v := c12RandArg(c)
-			b.Bytes(v)
+			act(func() { cur.Bytes(v) })
 			ops = append(ops, "OpBytes "+c12Bytes(v))
 		case 4:
 			v := toks[c.rng.Intn(len(toks))]
-			b.Str(v)
+			act(func() { cur.Str(v) })
 			ops = append(ops, "OpStr "+c12Bytes([]byte(v)))
 		case 5:
 			v := ints[c.rng.Intn(len(ints))]
-			b.Int(int(v))
+			act(func() { cur.Int(int(v)) })
 			ops = append(ops, "OpInt "+c12CInt(v))
 		case 6:
 			v := ints[c.rng.Intn(len(ints))]
-			b.Int64(v)
+			act(func() { cur.Int64(v) })
 			ops = append(ops, "OpInt64 "+c12CInt(v))
 		case 7:
-			b.True()
+			act(func() { cur.True() })
 			ops = append(ops, "OpTrue")
 		case 8:
-			b.False()
+			act(func() { cur.False() })
 			ops = append(ops, "OpFalse")
 		case 9:
 			v := c.rng.Intn(2) == 0
-			b.Bool(v)
+			act(func() { cur.Bool(v) })
 			ops = append(ops, "OpBool "+cBool(v))
 		case 10:
 			v := new(big.Int).Lsh(big.NewInt(int64(c.rng.Intn(1000))), uint(c.rng.Intn(100)))
 			if c.rng.Intn(3) == 0 {
 				v.Neg(v)
 			}
-			b.BigInt(v)
+			act(func() { cur.BigInt(v) })
 			ops = append(ops, "OpBigInt "+cZ(v))
 		case 11:
 			v := []string{"", "zz", "0a", "@"}[c.rng.Intn(4)]
-			b.SetLast(v)
+			act(func() { cur.SetLast(v) })
 			ops = append(ops, "OpSetLast "+c12Bytes([]byte(v)))
 		case 12:
 			t, k, s, d := toks[c.rng.Intn(len(toks))], toks[c.rng.Intn(len(toks))], ints[c.rng.Intn(len(ints))], byte(c.rng.Intn(20))
-			b.IssueESDT(t, k, s, d)
+			act(func() { cur.IssueESDT(t, k, s, d) })
 			ops = append(ops, fmt.Sprintf("OpIssue %s %s %s %s", c12Bytes([]byte(t)), c12Bytes([]byte(k)), c12CInt(s), c12CByte(d)))
 		case 13:
 			t, v := toks[c.rng.Intn(len(toks))], ints[c.rng.Intn(len(ints))]
-			b.TransferESDT(t, v)
+			act(func() { cur.TransferESDT(t, v) })
 			ops = append(ops, fmt.Sprintf("OpTransferESDT %s %s", c12Bytes([]byte(t)), c12CInt(v)))
 		case 14:
 			t, nn, v := toks[c.rng.Intn(len(toks))], ints[c.rng.Intn(len(ints))], ints[c.rng.Intn(len(ints))]
-			b.TransferESDTNFT(t, int(nn), v)
+			act(func() { cur.TransferESDTNFT(t, int(nn), v) })
 			ops = append(ops, fmt.Sprintf("OpTransferESDTNFT %s %s %s", c12Bytes([]byte(t)), c12CInt(nn), c12CInt(v)))
 		case 15:
 			t, v := toks[c.rng.Intn(len(toks))], ints[c.rng.Intn(len(ints))]
-			b.BurnESDT(t, v)
+			act(func() { cur.BurnESDT(t, v) })
 			ops = append(ops, fmt.Sprintf("OpBurnESDT %s %s", c12Bytes([]byte(t)), c12CInt(v)))
 		default:
 			w, v := c.rng.Intn(7), c.rng.Intn(2) == 0
 			switch w {
 			case 0:
-				b.CanFreeze(v)
+				act(func() { cur.CanFreeze(v) })
 			case 1:
-				b.CanWipe(v)
+				act(func() { cur.CanWipe(v) })
 			case 2:
-				b.CanPause(v)
+				act(func() { cur.CanPause(v) })
 			case 3:
-				b.CanMint(v)
+				act(func() { cur.CanMint(v) })
 			case 4:
-				b.CanBurn(v)
+				act(func() { cur.CanBurn(v) })
 			case 5:
-				b.CanTransferNFTCreateRole(v)
+				act(func() { cur.CanTransferNFTCreateRole(v) })
 			default:
-				b.CanAddSpecialRoles(v)
+				act(func() { cur.CanAddSpecialRoles(v) })
 			}
 			ops = append(ops, fmt.Sprintf("OpCan %d%%N %s", w, cBool(v)))
 		}
 	}
 	out, last := b.ToString(), b.GetLast()
+	if out2 := b2.ToString(); out2 != out || b2.GetLast() != last {
+		c.fail("monitor", "builder-read-not-pure", fmt.Sprintf("a builder that was read (ToString/ToBytes/GetLast, %d times) while being filled builds %q, the same script without reads builds %q", reads, out, out2),
+			map[string]string{"ops": strings.Join(ops, "; ")})
+	}
 	if string(b.ToBytes()) != out {
 		c.fail("monitor", "builder-tobytes", "ToBytes differs from ToString", map[string]string{"ops": strings.Join(ops, "; ")})
 	}
